@@ -275,3 +275,210 @@ def oracle(case, res, gap_gate=1e-6, tie=1e-9):
             if np.abs(yc - wanty).max() > 1e-7 * max(1.0, np.abs(Y).max()) * max(1.0, np.linalg.cond(X)):
                 return "y_current_ is not the unexplained part of y (max dev %.3g)" % np.abs(yc - wanty).max(), info
     return None, info
+
+
+# ----------------------------------------------------------------------------- model replica (hints)
+def m_orth_step(x1, j, tol=TOL):
+    col = x1[:, [j]]
+    nrm = math.sqrt(float((col * col).sum()))
+    if not nrm < tol:
+        col = col * (1.0 / nrm)
+    return x1 - col @ (col.T @ x1)
+
+
+def m_resid(X, sel, axis, re_):
+    """numpy replica of Model/CURLoop.v resid_f (only used to compute oracle hints)."""
+    if re_ == 0:
+        return X.copy()
+    x1 = X.copy() if axis == 1 else X.T.copy()
+    for j in sel:
+        x1 = m_orth_step(x1, j)
+    return x1 if axis == 1 else x1.T
+
+
+def stage_of_step(case):
+    """n_to_select of the fit during which the s-th selection (1-based) is made."""
+    out, t = [], 0
+    for kk in case["stages"]:
+        while t < kk:
+            t += 1
+            out.append(kk)
+    return out
+
+
+def y_hints(case, sel):
+    """per selection: feature -> (K, pinv(Xs^T Xs)); sample -> (W, Z)."""
+    X = np.array(case["X"], dtype=float)
+    Y = np.array(case["y"], dtype=float)
+    Ks = stage_of_step(case)
+    hints = []
+    for t in range(1, len(sel) + 1):
+        if case["axis"] == 1:
+            K = Ks[t - 1]
+            Xs = np.zeros((X.shape[0], K))
+            Xs[:, :t] = X[:, sel[:t]]
+            hints.append((K, np.linalg.pinv(Xs.T @ Xs, rcond=TOL)))
+        else:
+            Xr, Yr = X[sel[:t]], Y[sel[:t]]
+            W = np.linalg.lstsq(Xr, Yr, rcond=TOL)[0]
+            Z = np.linalg.lstsq(Xr.T, W, rcond=None)[0]
+            hints.append((W, Z))
+    return hints
+
+
+def m_y(case, sel, t, hints):
+    Y = np.array(case["y"], dtype=float)
+    X = np.array(case["X"], dtype=float)
+    if case["re"] == 0 or t == 0:
+        return Y
+    if case["axis"] == 0:
+        return Y - X @ hints[t - 1][0]
+    y = Y
+    for s in range(1, t + 1):
+        K, V = hints[s - 1]
+        Xs = np.zeros((X.shape[0], K))
+        Xs[:, :s] = X[:, sel[:s]]
+        y = y - ((Xs @ V) @ Xs.T) @ y
+    return y
+
+
+def eig_desc(M):
+    lam, V = np.linalg.eigh(M)
+    return lam[::-1].copy(), V[:, ::-1].copy()
+
+
+def refresh_hints(case, sel, t, hints, rcond=1e-12):
+    """complete eigendecomposition of the matrix the model forms at a refresh with t selections."""
+    X = np.array(case["X"], dtype=float)
+    Xt = m_resid(X, sel[:t], case["axis"], case["re"])
+    UC = vC = None
+    if case["kind"] == "cur":
+        M = Xt @ Xt.T if case["axis"] == 0 else Xt.T @ Xt
+    else:
+        yt = m_y(case, sel, t, hints)
+        a = case["mixing"]
+        if case["axis"] == 0:
+            M = ((1 - a) * yt) @ yt.T + (a * Xt) @ Xt.T
+        else:
+            vC, UC = eig_desc(Xt.T @ Xt)
+            d = np.where(vC > rcond, 1.0 / np.sqrt(np.where(vC > rcond, vC, 1.0)), 0.0)
+            isq = (UC * d) @ UC.T
+            CY = isq @ (Xt.T @ yt)
+            M = (1 - a) * (CY @ CY.T) + a * (Xt.T @ Xt)
+    lam, V = eig_desc(M)
+    return dict(V=V, lam=lam, UC=UC, vC=vC, M=M)
+
+
+# ----------------------------------------------------------------------------- Coq text
+class Interner:
+    def __init__(self):
+        self.defs, self.names = [], {}
+
+    def mat(self, A):
+        if A is None:
+            return "[]"
+        A = np.atleast_2d(np.asarray(A, dtype=float))
+        if A.size == 0:
+            return "[]"
+        key = (A.shape, A.tobytes())
+        if key not in self.names:
+            name = "m%d" % len(self.names)
+            self.defs.append("Definition %s : fmat := %s.\n" % (name, C.fmat(A.tolist())))
+            self.names[key] = name
+        return self.names[key]
+
+    def col(self, v):
+        return "[]" if v is None else self.mat(np.asarray(v, dtype=float).reshape(-1, 1))
+
+
+def code_vec(v):
+    return [bits(x) for x in v]
+
+
+def case_coq(case, res, I):
+    """(sched_ok term, ccase term) for a fitted chain; None if the refresh vectors are unavailable."""
+    X = np.array(case["X"], dtype=float)
+    n, m = X.shape
+    axis = case["axis"]
+    N = n if axis == 0 else m
+    sel = res["sel"]
+    ev = schedule(case, sel)
+    refresh = res["refresh"]
+    sched = "sched_ok %d %d %s%%Z %s %s %s%%Z" % (
+        case["re"], N, C.zmat([code_vec(v) for v in refresh]), C.natlist(case["stages"]),
+        C.natlist(sel), C.zmat([code_vec(v) for v in res["presented"]]))
+    pcov = case["kind"] == "pcovcur"
+    p = len(case["y"][0]) if pcov else 0
+    hints = y_hints(case, sel) if (pcov and case["re"] != 0) else []
+    rtxt = []
+    if len(ev) == len(refresh):
+        for (t, warm), piobs in zip(ev, refresh):
+            h = refresh_hints(case, sel, t, hints)
+            rtxt.append("(mk_refresh %d %s %s %s %s %s)" % (
+                t, I.mat(h["V"]), I.col(h["lam"]), I.mat(h["UC"]), I.col(h["vC"]), I.col(piobs)))
+    if pcov and axis == 1:
+        yf = "[" + "; ".join("(%d%%nat, %s)" % (K, I.mat(V)) for K, V in hints) + "]"
+        ys = "[]"
+    elif pcov:
+        yf = "[]"
+        ys = "[" + "; ".join("(%s, %s)" % (I.mat(W), I.mat(Z)) for W, Z in hints) + "]"
+    else:
+        yf = ys = "[]"
+    cc = "(mk_ccase %s %s %d %d %d %d %d %s %s %s %s %s %s [%s] %s %s)" % (
+        "true" if axis == 0 else "false", "true" if pcov else "false", n, m, p, case["k"], case["re"],
+        C.fl(case["mixing"] if pcov else 1.0), I.mat(X), I.mat(case["y"]) if pcov else "[]",
+        C.natlist(sel), yf, ys, "; ".join(rtxt), I.mat(res["X_current"]),
+        I.mat(res["y_current"]) if pcov else "[]")
+    return sched, cc, len(ev) == len(refresh)
+
+
+PARAMS = dict(tol=TOL, rcond=1e-12, rtol=1e-9, atol=1e-9, eps=1e-9, gap=1e-6, pirtol=1e-6, piatol=1e-7,
+              cond=1e-10)
+
+
+def shard_text(scheds, ccs, I, P=PARAMS):
+    return (C.SHARD_HEAD + "From Coq Require Import List PrimFloat ZArith.\nImport ListNotations.\n"
+            "From Verif Require Import ListX MExp CURSched CURLoop.\n"
+            + "".join(I.defs)
+            + "Definition prm := mk_cparams %s %s %s %s %s %s %s %s %s.\n" % tuple(
+                C.fl(P[k]) for k in ("tol", "rcond", "rtol", "atol", "eps", "gap", "pirtol", "piatol", "cond"))
+            + "Definition scheds : list bool := [\n %s].\n" % ";\n ".join(scheds)
+            + "Definition cases : list ccase := [\n %s].\n" % ";\n ".join(ccs)
+            + "Eval vm_compute in (failing scheds).\n"
+            + "Eval vm_compute in (map (cc_report prm) cases).\n")
+
+
+# ---- parsing of printed Coq values (lists, tuples, booleans, floats) --------------------------
+def _coq_value(txt):
+    import ast
+    import re
+    t = txt.replace(";", ",")
+    t = re.sub(r"\btrue\b", "True", t)
+    t = re.sub(r"\bfalse\b", "False", t)
+    t = re.sub(r"\bneg_infinity\b", "'-inf'", t)
+    t = re.sub(r"\binfinity\b", "'inf'", t)
+    t = re.sub(r"\bnan\b", "'nan'", t)
+    t = re.sub(r"%float|%nat|%Z", "", t)
+    v = ast.literal_eval(t)
+
+    def conv(x):
+        if isinstance(x, str):
+            return float(x)
+        if isinstance(x, (list, tuple)):
+            return [conv(y) for y in x]
+        return x
+    return conv(v)
+
+
+def parse_evals(out):
+    import re
+    flat = out.replace("\n", " ")
+    vals = []
+    for part in re.split(r"(?:^|\s)=\s", flat)[1:]:
+        i = part.rfind(" : ")
+        body = part[:i] if i >= 0 else part
+        try:
+            vals.append(_coq_value(body.strip()))
+        except Exception:            # noqa
+            vals.append(None)
+    return vals
